@@ -469,11 +469,38 @@ fn parse_sync_spec(yaml: &Yaml) -> Result<SyncSpec, String> {
     Ok(result)
 }
 
+/// The deepest nesting of sequences/dictionaries that we accept in a spec file. A valid spec needs 4 levels.
+const MAX_SPEC_NESTING: usize = 100;
+
+/// Rejects YAML text which is nested too deeply. YamlLoader recurses once per nesting level (both when
+/// loading and when dropping the result), so a small file like "- - - - ..." would otherwise overflow the stack.
+/// (Flow-style nesting ("[[[[") is limited by the YAML scanner itself, but block-style nesting is not.)
+/// This walks the parser events, which doesn't recurse.
+fn check_yaml_nesting(contents: &str) -> Result<(), String> {
+    let mut parser = yaml_rust::parser::Parser::new(contents.chars());
+    let mut depth : usize = 0;
+    loop {
+        let (event, mark) = parser.next().map_err(|e| e.to_string())?;
+        match event {
+            yaml_rust::parser::Event::SequenceStart(_) | yaml_rust::parser::Event::MappingStart(_) => {
+                depth += 1;
+                if depth > MAX_SPEC_NESTING {
+                    return Err(format!("nested too deeply at line {} column {}", mark.line(), mark.col() + 1));
+                }
+            }
+            yaml_rust::parser::Event::SequenceEnd | yaml_rust::parser::Event::MappingEnd => depth = depth.saturating_sub(1),
+            yaml_rust::parser::Event::StreamEnd => return Ok(()),
+            _ => (),
+        }
+    }
+}
+
 fn parse_spec_file(path: &Path) -> Result<Spec, String> {
     profile_this!();
     let mut result = Spec::default();
 
     let contents = std::fs::read_to_string(path).map_err(|e| e.to_string())?;
+    check_yaml_nesting(&contents)?;
     let docs = YamlLoader::load_from_str(&contents).map_err(|e| e.to_string())?;
     if docs.len() < 1 {
         // We allow >1 doc, but just ignore the rest, this might be useful for users, to use like a comments or versions
